@@ -197,10 +197,12 @@ pub fn run(reg: &[Box<dyn TypeOps>], defaults: &[Option<&'static str>], cfg: &Cf
         // assign_in_place on valid current values (unsized types)
         if unsized_ {
             let n_states = cfg.scale * if cfg.thorough { 60 } else { 14 };
-            for _ in 0..n_states {
+            for st in 0..n_states + boundary.len() {
+                let scripted = st >= n_states;
                 let d0 = gen_init(&sh, &mut rng, 0);
                 let need0 = match needed(t.as_ref(), &d0, &mut big) { Some(n) => n, None => continue };
-                let room = need0 + match rng.below(4) { 0 => 0, 1 => rng.below(al as u64 + 1) as usize, 2 => rng.below(12) as usize, _ => rng.below(40) as usize };
+                // scripted states: plenty of room, so that an item whose link offset reaches `L::MAX` is refused for that reason
+                let room = if scripted { (need0 + 560) / al * al } else { need0 + match rng.below(4) { 0 => 0, 1 => rng.below(al as u64 + 1) as usize, 2 => rng.below(12) as usize, _ => rng.below(40) as usize } };
                 // build the current value
                 let base = { let p = big.as_ptr() as usize; (16 - p % 16) % 16 };
                 let garbage = rng.bytes(room);
@@ -217,8 +219,8 @@ pub fn run(reg: &[Box<dyn TypeOps>], defaults: &[Option<&'static str>], cfg: &Cf
                     }
                 }
                 let n_repl = if cfg.thorough { 8 } else { 4 };
-                for _ in 0..n_repl {
-                    let d1 = gen_init(&sh, &mut rng, 0);
+                for r in 0..n_repl {
+                    let d1 = if scripted && r == 0 { boundary[st - n_states].clone() } else if scripted && r == 1 { match &boundary[st - n_states] { D::FlexIter(v) => D::FlexIter(vec![v[1].clone()]), o => o.clone() } } else { gen_init(&sh, &mut rng, 0) };
                     let d2 = gen_init(&sh, &mut rng, 0);
                     let place = if (PAGE - room) % al == 0 && rng.chance(1, 2) { Place::End } else { Place::Mid(0) };
                     let a16 = a16_of(&ar, place, room);
